@@ -13,8 +13,8 @@ RULE = ("seeded edit histories with 60% fault ops over all op families of C03-C0
         "object may hang below a pre-existing one. distinct = distinct (op, labels, exception) "
         "refusal classes combined with the universe shape in which they fired")
 COMPONENTS = sessioncheck.COMPONENTS
-TECHNIQUE = 'SESSION: fault injection = operations provoked to fail in generated pre-states; whole-universe snapshot equality when an op raises'
-LEVEL_TEXT = 'Seeded exploration with 60% fault ops: every operation family is invoked in pre-states chosen so that the library has to refuse it (name clash, wrong type, own subtree, attached elsewhere, duplicate in argument, invalid cardinality, unconvertible value, malformed id, invalid date, unresolvable or unmergeable link); whenever a call raises, the snapshot of the whole universe, all roots and alias lists included, must equal the snapshot before the call.'
+TECHNIQUE = 'SESSION: fault injection = operations provoked to fail in generated pre-states; whole-universe snapshot equality when an op raises; history differential (replay without the refused ops, same final state)'
+LEVEL_TEXT = 'Seeded exploration with 60% fault ops: every operation family is invoked in pre-states chosen so that the library has to refuse it (name clash, wrong type, own subtree, attached elsewhere, duplicate in argument, invalid cardinality, unconvertible value, malformed id, invalid date, unresolvable or unmergeable link); whenever a call raises, the snapshot of the whole universe, all roots and alias lists included, must equal the snapshot before the call. At the end of a run the history is replayed without the operations that raised: the final universe must be the same (a refusal has no delayed effect either).'
 LEVEL_NOTE = 'Snapshots go through the public getters; nothing is asserted when an op succeeds; bounded histories and universe.'
 DESIGN_REF = 'DESIGN.md 4 (C06)'
 ASSUMPTIONS = ["nothing is asserted when an op succeeds (other properties do that)",
